@@ -134,10 +134,12 @@ def run(ck):
     cmpf = m.func("cmp_interval")
     classes = set()
     for n in walk_body(cmpf):
-        if isinstance(n, ast.Return) and isinstance(n.value, ast.Name) and n.value.id.startswith("INT_"):
-            classes.add(n.value.id)
-        if isinstance(n, ast.Assign) and isinstance(n.value, ast.Name) and n.value.id.startswith("INT_"):
-            classes.add(n.value.id)
+        if isinstance(n, (ast.Return, ast.Assign)) and n.value is not None:
+            for x in ast.walk(n.value):
+                if isinstance(x, ast.Name) and x.id.startswith("INT_"):
+                    classes.add(x.id)
+    ck.rule("R8", "cmp_interval classifies every relative position of two closed members as the set relation it names (finite case analysis over order types)", floor=1)
+    _cmp_interval_rule(ck, m, cmpf)
     ck.need(len(classes) >= 5, "cmp_interval: verdict classes not found (%s)" % sorted(classes))
     for name in ("cannon_list", "difference", "intersection"):
         fn = meths[name]
@@ -322,3 +324,69 @@ def closed_bound_rules(ck, rid):
                       "the pairing is left (`%s`) knowing only `%s <= %s`: with closed bounds the two members still share the point %s == %s"
                       % (norm(nd.ast).split("\n")[0], a, b, a, b))
     ck.ob(rid, "interval:bound-comparisons-seen", n_tests >= 2, REL, "no comparison between bounds of two members found in interval.py (extractor blind)")
+
+
+def _cmp_interval_rule(ck, m, fn):
+    """cmp_interval(A, B) only COMPARES the four bounds (possibly shifted by a constant): its verdict depends on nothing but the order
+    type of (a1, b1, a2, b2) and on which differences equal 1.  That is a finite set; one representative per class (all bounds in 0..7)
+    is pushed through the function's own text by the checker's evaluator (sa/peval) and the verdict compared with the set relation:
+        equal -> INT_EQ; b1 + 1 < a2 or b2 + 1 < a1 -> INT_DISJOIN; b1 + 1 == a2 -> INT_JOIN_AB; b2 + 1 == a1 -> INT_JOIN_BA;
+        B inside A -> INT_B_IN_A; A inside B -> INT_A_IN_B; otherwise INT_JOIN.
+    Precondition checked first (otherwise: formulation not understood): the bounds reach only comparisons, +/- constants, tuple
+    (un)packing and swaps."""
+    from sa.peval import Interp, Undetermined, UnboundLocal
+    from sa.repo import AnalysisError
+    consts = {}
+    for k, v in m.assigns.items():
+        if k.startswith("INT_"):
+            try:
+                consts[k] = ast.literal_eval(v)
+            except Exception:
+                pass
+    if len(consts) < 7:
+        raise AnalysisError("cmp_interval: INT_* constants not found")
+    # precondition: only comparisons / +- constants / (un)packing on the operands
+    for n in ast.walk(fn):
+        if isinstance(n, ast.BinOp) and not (isinstance(n.op, (ast.Add, ast.Sub)) and (isinstance(n.right, ast.Constant) or isinstance(n.left, ast.Constant))):
+            raise AnalysisError("cmp_interval: arithmetic other than +/- constant on the bounds (`%s`): order-type case analysis does not apply" % norm(n))
+        if isinstance(n, ast.Call) and not (isinstance(n.func, ast.Name) and n.func.id in ("min", "max")):
+            raise AnalysisError("cmp_interval: call `%s`: order-type case analysis does not apply" % norm(n)[:40])
+    it = Interp(functions={}, methods={}, consts=consts, max_steps=5000000)
+    names = dict((v, k) for k, v in consts.items())
+    bad = []
+    n_cases = 0
+    R = range(0, 8)
+    for a1 in R:
+        for b1 in R:
+            if b1 < a1:
+                continue
+            for a2 in R:
+                for b2 in R:
+                    if b2 < a2:
+                        continue
+                    n_cases += 1
+                    if (a1, b1) == (a2, b2):
+                        want = "INT_EQ"
+                    elif b1 + 1 < a2 or b2 + 1 < a1:
+                        want = "INT_DISJOIN"
+                    elif b1 + 1 == a2:
+                        want = "INT_JOIN_AB"
+                    elif b2 + 1 == a1:
+                        want = "INT_JOIN_BA"
+                    elif a1 <= a2 and b2 <= b1:
+                        want = "INT_B_IN_A"
+                    elif a2 <= a1 and b1 <= b2:
+                        want = "INT_A_IN_B"
+                    else:
+                        want = "INT_JOIN"
+                    try:
+                        got = it.call_function(fn, [(a1, b1), (a2, b2)])
+                    except UnboundLocal as e:
+                        got = "raises (%s)" % e
+                    except Undetermined as e:
+                        raise AnalysisError("cmp_interval: construct not understood by the evaluator (%s)" % e)
+                    g = names.get(got, got)
+                    if g != want and len(bad) < 4:
+                        bad.append("A = [%d, %d], B = [%d, %d]: %s, the set relation is %s" % (a1, b1, a2, b2, g, want))
+    ck.ob("R8", "cmp_interval:classification", not bad, m.where(fn),
+          "cmp_interval misclassifies relative positions (one representative per order type, %d cases): %s" % (n_cases, "; ".join(bad)))
